@@ -119,3 +119,34 @@ Definition recovers_at (gs : list goroutine) (site : string * string * nat) : bo
 
 Definition inventory_ok (gs : list goroutine) : bool :=
   forallb accounted gs && forallb (present gs) allow_list && forallb (recovers_at gs) must_recover.
+
+(* ------------------------------------------------------------------ receive loops of the HTTP handlers (contract K)
+   A handler loop `for x := range ch` (or a for/select with a receive) must receive until the channel is
+   closed: the goroutine that feeds it sends on an unbuffered channel and would stay blocked otherwise -- also
+   when w.Write fails because the client went away. A loop that can leave earlier must be allow-listed with
+   what covers it. *)
+Record rloop := { l_file : string; l_func : string; l_ord : nat; l_kind : string; l_x : string; l_early : bool }.
+
+Inductive loop_class :=
+| LNotChannel        (* ranges over a slice / map literal, not over a channel *)
+| LDrainedByDefer    (* the handler defers `go func(){ for range ch {} }()` before the loop *)
+| LEncodeErrorOnly.  (* leaves only if encoding/json fails on a plain struct of strings (cannot) -- not drained *)
+
+Definition loop_allow : list (string * string * nat * loop_class) := [
+  ("controller/profController.go", "(*ProfController).RenderDiff", 0, LNotChannel);
+  ("controller/profController.go", "(*ProfController).RenderDiff", 1, LNotChannel);
+  ("controller/queryRangeController.go", "(*QueryRangeController).Tail", 1, LDrainedByDefer);
+  ("controller/tempoController.go", "(*TempoController).Trace", 2, LEncodeErrorOnly);
+  ("controller/tempoController.go", "(*TempoController).TagsV2", 0, LNotChannel);
+  ("controller/tempoController.go", "(*TempoController).ValuesV2", 0, LNotChannel);
+  ("controller/utils.go", "RunPreRequestPlugins", 0, LNotChannel);
+  ("controller/utils.go", "runPreWSRequestPlugins", 0, LNotChannel)
+].
+
+Definition loop_accounted (l : rloop) : bool :=
+  negb (l_early l) ||
+  existsb (fun a => let '(f, fn, o, _) := a in String.eqb (l_file l) f && String.eqb (l_func l) fn && Nat.eqb (l_ord l) o) loop_allow.
+
+Definition loops_ok (ls : list rloop) : bool := forallb loop_accounted ls.
+Definition unaccounted_loops (ls : list rloop) : list (string * string * nat * string) :=
+  map (fun l => (l_file l, l_func l, l_ord l, l_x l)) (filter (fun l => negb (loop_accounted l)) ls).
